@@ -61,6 +61,43 @@ def herm_stub(N, store):
     return f
 
 
+def eigen_solver_stubs(mod, dem, N, store):
+    """contract stubs placed at Eigen::SelfAdjointEigenSolver<Matrix<double,N,N>>::computeDirect / compute, so that the body of
+    gm2calc::hermitian_eigen itself is executed.  If the matrix handed to Eigen is the caller's matrix the stored factors are
+    returned; otherwise fresh factors constrained by the contract for the matrix actually passed."""
+    names = [n for n in mod.functions if dem.get(n, '').startswith('Eigen::SelfAdjointEigenSolver<Eigen::Matrix<double, %d, %d' % (N, N)) and
+             (('::computeDirect(' in dem[n]) or ('::compute(' in dem[n]))]
+    if not names:
+        return None
+    off_vec, off_val = 0, 8 * N * N
+
+    def stub(ex, st, args, I):
+        this, mptr = args[0], args[1]
+        A = [[ex.load(st, Ptr(mptr.rid, mptr.off + 8 * (i + N * j)), llir.DOUBLE) for j in range(N)] for i in range(N)]
+        if any(isinstance(x, float) for row in A for x in row):
+            st.event('nonfinite-matrix-to-eigen', where=ex.where(st))
+            from symx.exec import PathEnd
+            raise PathEnd('nonfinite-to-eigen')
+        A = [[zr(x) for x in row] for row in A]
+        M = store['M']
+        same = all(z3.eq(z3.simplify(A[i][j]), z3.simplify(M[i][j])) for i in range(N) for j in range(N))
+        if same:
+            w, Z = store['w'], store['Z']
+        else:
+            # the wrapper hands Eigen a matrix that is not syntactically the caller's matrix (e.g. a rescaled copy): the factor
+            # contract for an arbitrary related matrix is not encoded - the path ends here and is reported as not covered
+            store['rescaled'] = True
+            st.event('matrix-differs', where=ex.where(st))
+            from symx.exec import PathEnd
+            raise PathEnd('matrix-differs')
+        for i in range(N):
+            ex.store(st, Ptr(this.rid, this.off + off_val + 8 * i), llir.DOUBLE, w[i])
+            for j in range(N):
+                ex.store(st, Ptr(this.rid, this.off + off_vec + 8 * (i + N * j)), llir.DOUBLE, Z[i][j])
+        return this
+    return {n: stub for n in names}
+
+
 def orth(Z, N):
     cons = []
     for i in range(N):
@@ -82,8 +119,9 @@ def herm(chk, mod, dem, N, tier):
     w = [z3.Real('w%d' % i) for i in range(N)]
     Z = [[z3.Real('Z%d%d' % (i, j)) for j in range(N)] for i in range(N)]
     M = [[sum(Z[i][k] * w[k] * Z[j][k] for k in range(N)) for j in range(N)] for i in range(N)]
-    store = {'w': w, 'Z': Z}
-    ex = executor(mod, RealDom(), extra_stubs={st_names[0]: herm_stub(N, store)}, fork_select=True)
+    store = {'w': w, 'Z': Z, 'M': M}
+    inner = eigen_solver_stubs(mod, dem, N, store)
+    ex = executor(mod, RealDom(), extra_stubs=inner if inner else {st_names[0]: herm_stub(N, store)}, fork_select=True)
     ex.max_steps = 2000000
     ex.no_prune = False
     st = X.State()
@@ -100,6 +138,14 @@ def herm(chk, mod, dem, N, tier):
     chk.absorb_executor(ex)
     jobs = []
     for pi, p in enumerate(rr):
+        if nonfinite_path(chk, p, name, pi, w, fam, 'herm', N):
+            continue
+        if p.outcome[0] == 'matrix-differs':
+            if not store.get('reported_differs'):
+                store['reported_differs'] = True
+                chk.record(name + ':matrix-differs', 'gap', 'matrix passed to the eigen-solver is not the input matrix', family=fam)
+                chk.not_covered.append('%s: the wrapper passes a transformed matrix to Eigen; factor contract for it not encoded' % name)
+            continue
         if p.outcome[0] != 'ret':
             r, m = chk.solve(list(p.pc), 20000)
             if r != 'unsat':
@@ -139,8 +185,9 @@ def takagi(chk, mod, dem, N, tier):
     w = [z3.Real('w%d' % i) for i in range(N)]
     Z = [[z3.Real('Z%d%d' % (i, j)) for j in range(N)] for i in range(N)]
     M = [[sum(Z[i][k] * w[k] * Z[j][k] for k in range(N)) for j in range(N)] for i in range(N)]
-    store = {'w': w, 'Z': Z}
-    ex = executor(mod, RealDom(), extra_stubs={st_names[0]: herm_stub(N, store)}, fork_select=True)
+    store = {'w': w, 'Z': Z, 'M': M}
+    inner = eigen_solver_stubs(mod, dem, N, store)
+    ex = executor(mod, RealDom(), extra_stubs=inner if inner else {st_names[0]: herm_stub(N, store)}, fork_select=True)
     ex.max_steps = 4000000
     st = X.State()
     rm = ex.new_region(st, 8 * N * N, 'input', 'm')
@@ -161,6 +208,14 @@ def takagi(chk, mod, dem, N, tier):
     chk.absorb_executor(ex)
     jobs = []
     for pi, p in enumerate(rr):
+        if nonfinite_path(chk, p, name, pi, w, fam, 'symm', N):
+            continue
+        if p.outcome[0] == 'matrix-differs':
+            if not store.get('reported_differs'):
+                store['reported_differs'] = True
+                chk.record(name + ':matrix-differs', 'gap', 'matrix passed to the eigen-solver is not the input matrix', family=fam)
+                chk.not_covered.append('%s: the wrapper passes a transformed matrix to Eigen; factor contract for it not encoded' % name)
+            continue
         if p.outcome[0] != 'ret':
             r, m = chk.solve(list(p.pc), 20000)
             if r != 'unsat':
@@ -251,6 +306,12 @@ def svd(chk, mod, dem, N, tier):
     chk.absorb_executor(ex)
     jobs = []
     for pi, p in enumerate(rr):
+        if p.outcome[0] == 'matrix-differs':
+            if not store.get('reported_differs'):
+                store['reported_differs'] = True
+                chk.record(name + ':matrix-differs', 'gap', 'matrix passed to the eigen-solver is not the input matrix', family=fam)
+                chk.not_covered.append('%s: the wrapper passes a transformed matrix to Eigen; factor contract for it not encoded' % name)
+            continue
         if p.outcome[0] != 'ret':
             r, m = chk.solve(list(p.pc), 20000)
             if r != 'unsat':
@@ -381,6 +442,26 @@ def goldstone(chk, mod, dem, N):
         if r == 'sat':
             chk.violation(job['name'], 'C12:move_goldstone_to', 'move_goldstone_to does not permute the mixing-matrix rows with the masses / does '
                           'not move the closest state to the front', '#!/bin/sh\ncd %s && exec python3-vt -m props.replay_c04\n' % VERIF)
+
+
+def nonfinite_path(chk, p, name, pi, w, fam, kind, N):
+    """a path on which the wrapper divides by zero or hands a non-finite matrix to the eigen-solver although the input is finite"""
+    evs = [e for e in p.events if e[0] in ('fdiv-by-zero', 'nonfinite-matrix-to-eigen')]
+    if not evs and not (p.outcome and p.outcome[0] == 'nonfinite-to-eigen'):
+        return False
+    r, m = chk.solve(list(p.pc), 30000)
+    if r == 'unsat':
+        return True
+    if r != 'sat':
+        chk.record('%s#%d' % (name, pi), 'inconclusive', 'feasibility of a division-by-zero path undecided', family=fam)
+        chk.inconclusive.append('%s#%d' % (name, pi))
+        return True
+    vals = [float(m.real(x)) for x in w]
+    chk.violation('%s#%d' % (name, pi), 'C12:%s:nonfinite' % name,
+                  '%s divides by zero / passes a non-finite matrix to the eigen-solver for the finite input with eigenvalues %r (e.g. a matrix '
+                  'with zero diagonal): factors and error bounds are NaN' % (name, vals),
+                  '#!/bin/sh\ncd %s && exec python3-vt -m props.replay_c12 %s %d %s\n' % (VERIF, kind, N, ' '.join(repr(v) for v in vals)))
+    return True
 
 
 def zr_int(v):
